@@ -317,6 +317,10 @@ func (c *Context) HandleEnvelop(envelop vivid.Envelop) {
 	currentState := atomic.LoadInt32(&c.state)
 	killingOrKilled := (currentState == killed) || (!envelop.System() && currentState != running) // 是否处于停止中或死亡状态
 	if killingOrKilled && !c.zombie {                                                             // 是否处于僵尸状态
+		if _, isKill := envelop.Message().(*vivid.OnKill); isKill && currentState == killing {
+			// 以毒丸方式（普通消息）到达的 Kill 在停止/重启过程中不会被执行：终止优先，取消正在进行的重启
+			c.restarting = nil
+		}
 		if _, isDeathLetter := envelop.Message().(ves.DeathLetterEvent); isDeathLetter {
 			// 死信本身无法投递（系统已停止）时直接丢弃，否则会在已停止的根 Actor 上无限循环投递
 			return
@@ -510,12 +514,16 @@ func (c *Context) onRestart(message *RestartMessage, behavior vivid.Behavior) {
 	// 结论：该分支在任何路径下均不可达，故注释。
 	// 注意：CAS 仍需执行以完成 running->killing 的状态转换。
 
-	// if !atomic.CompareAndSwapInt32(&c.state, running, killing) {
-	// 	return
-	// }
+	// 上述结论不成立：子 Actor 失败后、父 Actor 作出 Restart 决策之前，子 Actor 可能已经收到 Kill（例如父 Actor 自身被终止），
+	// 并在 killing 状态下等待其子 Actor 结束；此时再执行重启会让一个已被终止的 Actor 复活，其父 Actor 将永远等不到它的 OnKilled。
+	if !atomic.CompareAndSwapInt32(&c.state, running, killing) {
+		// 监督者在发出重启指令前暂停了目标的邮箱：被忽略的指令不会再恢复它，此处恢复，
+		// 使停止中的 Actor 的普通消息进入死信、僵尸 Actor 继续排空其邮箱，而不是永久滞留
+		c.mailbox.Resume()
+		return
+	}
 
 	// 标记正在重启
-	atomic.StoreInt32(&c.state, killing) // 取代上方 CAS 注释
 	c.restarting = message
 	c.Logger().Debug("receive restart", log.String("path", c.ref.GetPath()), log.String("reason", message.Reason), log.Any("fault", message.Fault), log.String("stack", string(message.Stack)))
 
@@ -548,6 +556,8 @@ func (c *Context) onRestart(message *RestartMessage, behavior vivid.Behavior) {
 
 func (c *Context) onKill(message *vivid.OnKill, behavior vivid.Behavior) {
 	if !c.zombie && !atomic.CompareAndSwapInt32(&c.state, running, killing) {
+		// 重启过程中（正在等待子 Actor 结束）收到 Kill：终止优先，取消重启，否则该 Kill 会被静默丢弃
+		c.restarting = nil
 		return
 	}
 	c.doKill(message, behavior)
